@@ -2,9 +2,11 @@
 //! validates against the TLA+ specifications in /verif/spec. See /verif/DESIGN.md.
 use kvc::util::Opts;
 mod hist;
+mod o2;
 mod keys;
 mod privs;
 mod smoke;
+mod valid;
 mod world;
 
 fn main() {
@@ -19,6 +21,7 @@ fn main() {
         "hist" => hist::run(&opts),
         "keys" => keys::run(&opts),
         "priv" => privs::run(&opts),
+        "valid" => valid::run(&opts),
         other => {
             eprintln!("unknown subcommand {other}");
             2
